@@ -39,6 +39,10 @@ EVENTS = [
     ("include-unterminated", "abort", "include(\"c08_unterm.conf\")\n"),
     ("unknown-option", "abort", "zzz = 1\n"),
     ("backslash-at-end", "abort", "zs = \"abc\\"),
+    ("read-error-in-sq", "abort-fail", "zs = 'abc"),
+    ("read-error-in-dq", "abort-fail", "zs = \"abc"),
+    ("read-error-plain", "abort-fail", "zi = 1\n"),
+    ("accepted-from-file", "parsefile", "single { x = 9 }\nsec ft { y = file }\n"),
     ("reinit", "reinit", None),
     ("switch", "switch", None),
     ("free-other", "free-other", None),
@@ -52,6 +56,8 @@ PROBES = [
     "a = 5 /* open",
     "a = zz\n",
     "a = 7\n",
+    "single {\n x = zz\n}\n",
+    "sec ft {\n y = ok\n x = zz\n}\n",
     "dep = 2\n",
     "depl += z\n# c\n",
     "dep = 5\n# c\ndepl = {}\n",
@@ -108,6 +114,19 @@ class C08:
                 ip = s.add("parse_buf", cur, hx(text))
                 if kind == "parse":
                     obs.append((name, ip, s.add("dump", cur)))
+            elif kind == "abort-fail":
+                if not alive[cur]:
+                    s.add("init", cur, 0, 0)
+                    alive[cur] = True
+                s.add("parse_fp_fail", cur, hx(text), len(text))      # the stream fails right after the last byte
+            elif kind == "parsefile":
+                if not alive[cur]:
+                    s.add("init", cur, 0, 0)
+                    alive[cur] = True
+                fn = os.path.join(base, "c08_first.conf")
+                s.add("mkfile", hx(fn), hx(text))
+                ip = s.add("parse_file", cur, hx(fn))
+                obs.append((name, ip, s.add("dump", cur)))
             elif kind == "reinit":
                 if alive[cur]:
                     s.add("free", cur)
@@ -153,13 +172,13 @@ class C08:
 
     def check_case(self, case, get_ex):
         events = [EVENTS[k] for k in case["history"]]
-        ref = [e for e in events if e[1] != "abort"]
+        ref = [e for e in events if e[1] not in ("abort", "abort-fail")]
         s1, o1, a1 = self.script(events)
         s2, o2, a2 = self.script(ref)
         r1 = get_ex("asan", 10).run(s1)
         r2 = get_ex("asan", 10).run(s2)
         names = [e[0] for e in events]
-        aborts = [e[0] for e in events if e[1] == "abort"]
+        aborts = [e[0] for e in events if e[1] in ("abort", "abort-fail")]
         cl = ["len%d" % len(events)] + ["abort/" + a for a in aborts]
         nt = bool(aborts)
         sample = {"history": names}
